@@ -34,12 +34,20 @@ cmp_name(const void *a, const void *b)
 	return strcmp(*(char *const *) a, *(char *const *) b);
 }
 
+static int walk_flags = 0;
+
 static int
 walk(const char *path, cb_t fn, int level)
 {
 	struct stat st;
-	if (lstat(path, &st) != 0)
-		return 0;
+	/* like nftw(): symbolic links are followed unless FTW_PHYS was given */
+	if (walk_flags & FTW_PHYS) {
+		if (lstat(path, &st) != 0)
+			return 0;
+	} else if (stat(path, &st) != 0) {
+		if (lstat(path, &st) != 0)
+			return 0;
+	}
 
 	struct FTW ftw = { .base = 0, .level = level };
 	const char *slash = strrchr(path, '/');
@@ -99,8 +107,9 @@ walk(const char *path, cb_t fn, int level)
 }
 
 static int
-do_nftw(const char *path, cb_t fn)
+do_nftw(const char *path, cb_t fn, int flags)
 {
+	walk_flags = flags;
 	const char *order = getenv("VERIF_NFTW_ORDER");
 	rng = 88172645463325252ULL;
 	if (order && strncmp(order, "seed:", 5) == 0)
@@ -120,8 +129,7 @@ int
 nftw(const char *path, cb_t fn, int nopenfd, int flags)
 {
 	(void) nopenfd;
-	(void) flags;
-	return do_nftw(path, fn);
+	return do_nftw(path, fn, flags);
 }
 
 int
@@ -129,7 +137,6 @@ nftw64(const char *path, int (*fn)(const char *, const struct stat64 *, int, str
 		int nopenfd, int flags)
 {
 	(void) nopenfd;
-	(void) flags;
 	/* struct stat and struct stat64 are the same on LP64 */
-	return do_nftw(path, (cb_t) fn);
+	return do_nftw(path, (cb_t) fn, flags);
 }
